@@ -716,20 +716,31 @@ Definition is_exc (exc : list (pdk * prim * list string)) (k : pdk) (p : prim) (
 
 Definition generic_prims : list prim := [Mos; PRes; TRes; PCap; TCap; Diode; Bipolar].
 
-(* for every primitive mapped to the entry's table: the port lists agree exactly when the entry is not excepted *)
-Definition ports_check (exc : list (pdk * prim * list string)) (k : pdk) (g : group) (e : entry) : bool :=
+(* device ports are among the primitive's ports: then every device port is connected by the primitive's connections *)
+Definition ports_sub (p : prim) (e : entry) : bool :=
+  match prim_ports p with Some l => forallb (fun x => mem x l) (dev_ports (snd e)) | None => false end.
+
+(* for every primitive mapped to the entry's table: `ok` holds exactly when the entry is not excepted *)
+Definition ports_check (ok : prim -> entry -> bool) (exc : list (pdk * prim * list string)) (k : pdk) (g : group) (e : entry) : bool :=
   forallb (fun p => match group_of k p with
-                    | Some g' => if group_eqb g g' then Bool.eqb (ports_ok p e) (negb (is_exc exc k p (model_of e))) else true
+                    | Some g' => if group_eqb g g' then Bool.eqb (ok p e) (negb (is_exc exc k p (model_of e))) else true
                     | None => true end) generic_prims.
 
-Lemma ports_lift exc :
-  forallb (fun kg => forallb (ports_check exc (fst kg) (snd kg)) (table (fst kg) (snd kg))) all_kg = true ->
-  forall k p g e, group_of k p = Some g -> In e (table k g) -> ports_ok p e = negb (is_exc exc k p (model_of e)).
+Lemma ports_lift ok exc :
+  forallb (fun kg => forallb (ports_check ok exc (fst kg) (snd kg)) (table (fst kg) (snd kg))) all_kg = true ->
+  forall k p g e, group_of k p = Some g -> In e (table k g) -> ok p e = negb (is_exc exc k p (model_of e)).
 Proof.
-  intros H k p g e G I. pose proof (tables_forall (ports_check exc) H k g e I) as C. unfold ports_check in C.
+  intros H k p g e G I. pose proof (tables_forall (ports_check ok exc) H k g e I) as C. unfold ports_check in C.
   rewrite forallb_forall in C. assert (IP : In p generic_prims).
   { destruct p; cbn; try tauto. destruct k; discriminate G. }
   specialize (C p IP). rewrite G, group_eqb_refl in C. apply Bool.eqb_prop in C. exact C.
+Qed.
+
+Lemma ports_sub_connected p e conns l : prim_ports p = Some l -> ports_sub p e = true -> ports_connected l conns = true ->
+  ports_connected (dev_ports (snd e)) conns = true.
+Proof.
+  unfold ports_sub, ports_connected. intros H. rewrite H. intros S C. rewrite forallb_forall in *.
+  intros x X. apply C. apply mem_In. apply S. exact X.
 Qed.
 
 (* every entry listed as an exception exists (the list names nothing that is not in the tables) *)
